@@ -9,11 +9,11 @@ import (
 	"errors"
 	"fmt"
 	"time"
+	"verifharness/minex"
 
 	"go.sia.tech/core/consensus"
 	proto4 "go.sia.tech/core/rhp/v4"
 	"go.sia.tech/core/types"
-	"go.sia.tech/coreutils"
 	"go.sia.tech/coreutils/chain"
 	rhp4 "go.sia.tech/coreutils/rhp/v4"
 	"go.sia.tech/coreutils/testutil"
@@ -78,7 +78,7 @@ func (nd *Node) Sync() error {
 // Mine mines n blocks paying addr on this node and syncs its wallet.
 func (nd *Node) Mine(addr types.Address, n int) error {
 	for ; n > 0; n-- {
-		b, ok := coreutils.MineBlock(nd.CM, addr, 5*time.Second)
+		b, ok := minex.MineBlock(nd.CM, addr)
 		if !ok {
 			return errors.New("failed to mine block")
 		}
